@@ -1593,19 +1593,6 @@ fn forward_device_data(
     }
 
     let broker_topic_aliases = &mut connection.broker_topic_aliases;
-    let mut topic_alias = broker_topic_aliases
-        .as_ref()
-        .and_then(|aliases| aliases.get_alias(&request.filter));
-
-    let topic_alias_already_exists = topic_alias.is_some();
-
-    // if topic alias doesn't exists, try creating new one!
-    if !topic_alias_already_exists {
-        topic_alias = broker_topic_aliases
-            .as_mut()
-            .and_then(|broker_aliases| broker_aliases.set_new_alias(&request.filter))
-    }
-
     let subscription_id = connection.subscription_ids.get(&request.filter);
 
     // Fill and notify device data
@@ -1614,16 +1601,27 @@ fn forward_device_data(
         .map(|((mut publish, mut properties), offset)| {
             publish.qos = protocol::qos(qos).unwrap();
 
-            // if there is some topic alias to use, set it in publish properties
-            if topic_alias.is_some() {
-                let mut props = properties.unwrap_or_default();
-                props.topic_alias = topic_alias;
-                properties = Some(props);
-            }
+            // An alias stands for one topic: a wildcard subscription forwards many topics, so
+            // the alias is looked up (or created) per publish, by its topic. The first forward
+            // of a topic carries topic and alias, later ones the alias alone.
+            // (an empty topic on the wire means "alias only", so it cannot be given one)
+            if let Some(broker_aliases) = broker_topic_aliases.as_mut().filter(|_| !publish.topic.is_empty()) {
+                if let Ok(topic) = std::str::from_utf8(&publish.topic).map(str::to_owned) {
+                    let existing = broker_aliases.get_alias(&topic);
+                    let topic_alias = existing.or_else(|| broker_aliases.set_new_alias(&topic));
 
-            // We want to clear topic if we are using an existing alias
-            if topic_alias_already_exists {
-                publish.topic.clear()
+                    // if there is some topic alias to use, set it in publish properties
+                    if topic_alias.is_some() {
+                        let mut props = properties.unwrap_or_default();
+                        props.topic_alias = topic_alias;
+                        properties = Some(props);
+                    }
+
+                    // We want to clear topic if we are using an existing alias
+                    if existing.is_some() {
+                        publish.topic.clear()
+                    }
+                }
             }
 
             if let Some(&subscription_id) = subscription_id {
